@@ -518,6 +518,21 @@ def func_traces(rng, dataA, layout, tag):
         return (lambda: X_orthogonalizer(Xl, x2=x2, copy=True)), {"x1": Xl, "x2": x2}
     pure("X_orthogonalizer(x2,copy=True)", xo2)
     from skmatter.utils import effdim, oas, pcovr_covariance, pcovr_kernel
+    import skmatter.feature_selection as _F
+    import skmatter.sample_selection as _S
+
+    def fps_init(l):
+        # index lists are caller data too: the array of initial indices given to the constructor
+        init = lay(np.array([2, 0]), l)
+        Xl = lay(X, l)
+        return (lambda: (lambda m_: [m_.selected_idx_, m_.X_selected_])(_S.FPS(initialize=init, n_to_select=4).fit(Xl))), {"initialize": init, "X": Xl}
+    pure("sample.FPS(initialize=array)", fps_init)
+
+    def ffps_init(l):
+        init = lay(np.array([1, 3]), l)
+        Xl = lay(X, l)
+        return (lambda: (lambda m_: [m_.selected_idx_, m_.X_selected_])(_F.FPS(initialize=init, n_to_select=3).fit(Xl))), {"initialize": init, "X": Xl}
+    pure("feature.FPS(initialize=array)", ffps_init)
 
     def pcc(l):
         Xl, Yl = lay(X, l), lay(Y2, l)
